@@ -195,6 +195,11 @@ func c05TRef(v, x float64) float64 {
 	if isInt(v) {
 		return ref.ToF(ref.TCDFInt(x, int(v)))
 	}
+	if x*x <= v/4 {
+		// gonum uses the same 1 - I(v/(v+x^2)) form as the library and shares
+		// its cancellation near x = 0; the Maclaurin series does not.
+		return ref.TCDFSeries(x, v)
+	}
 	return distuv.StudentsT{Mu: 0, Sigma: 1, Nu: v}.CDF(x)
 }
 
@@ -208,6 +213,12 @@ func c05T(c *C05T, r *core.Rec) {
 	for j := 2; j <= 8; j++ {
 		xs = append(xs, math.Pow(10, float64(j)), -math.Pow(10, float64(j)))
 	}
+	// near zero: the region where v/(v+x^2) rounds to 1
+	for j := 1; j <= 48; j++ {
+		t := math.Pow(10, -float64(j)/4)
+		xs = append(xs, t, -t)
+	}
+	xs = append(xs, 5e-324, -5e-324, 1e-300, -1e-300)
 	sortF(xs)
 	cdf := make([]float64, len(xs))
 	prev := 0.0
@@ -217,7 +228,7 @@ func c05T(c *C05T, r *core.Rec) {
 		r.Trans(1)
 		r.OutcomeF(g)
 		want := c05TRef(c.V, x)
-		if isInt(c.V) && c.V <= 100 {
+		if isInt(c.V) && c.V <= 100 && x*x > c.V/4 {
 			// measure the non-integer oracle against the closed form where both exist
 			r.Err("oracle-vs-closed-form(t)", math.Abs(distuv.StudentsT{Mu: 0, Sigma: 1, Nu: c.V}.CDF(x)-want), 1e-10)
 			r.Valid(1)
